@@ -3,6 +3,7 @@
 -/
 import Props.Lemmas
 import Props.C17
+import Props.ImageTail
 namespace Slinky.C18
 open Slinky
 
@@ -50,5 +51,35 @@ theorem tail (cx : Ctx) (emitted : List Str) :
           split <;> split <;>
             simp [List.filter, C17.nonBlank, List.map_map, Function.comp_def, Line.renderBody]
         · simp [List.filter, C17.nonBlank, Line.renderBody]
+
+
+/-! ### in the linked image (the linker semantics `Slinkyv.Ld`) -/
+
+open Ld in
+/-- **C18, image clause for the allowlists**: a single-entry section `sec 0 : { *(sec); }`
+places every input section of that name that nothing placed or discarded before in an output
+section of that name, and takes nothing a segment placed. -/
+theorem image_allowlisted_survive (objs : List InSec) (st : St) (sec addr : Str) (r : List Line) :
+    (∀ i ∈ objs, i.sec = sec → isFree st i = true →
+      ∃ p ∈ (step objs st (.singleEntry sec addr) r).placed, p.inp = i ∧ p.out = sec) ∧
+    (∃ new, (step objs st (.singleEntry sec addr) r).placed = st.placed ++ new ∧
+      ∀ p ∈ new, isFree st p.inp = true ∧ p.inp.sec = sec) :=
+  ⟨single_entry_image objs st sec addr r, single_entry_only_free objs st sec addr r⟩
+
+open Ld in
+/-- **C18, image clause for `/DISCARD/`**: a pattern line discards exactly the matching input
+sections that are still free — every free one for `*(*)` — and an input section that a segment
+or an allowlist placed is not free, so it is never discarded. -/
+theorem image_discard_only_unplaced (objs : List InSec) (st : St) (hd : st.inDiscard = true) (pat : Str) (r : List Line) :
+    (step objs st (.discardPat pat) r).placed = st.placed ∧
+    (∀ i ∈ objs, isFree st i = true → (pat = c!"*" ∨ i.sec = pat) → i ∈ (step objs st (.discardPat pat) r).discarded) ∧
+    (∀ p ∈ st.placed, p.inp ∉ objs.filter (fun i => (pat = c!"*" || i.sec = pat) && isFree st i)) := by
+  obtain ⟨h1, _, h3⟩ := discard_pat_image objs st hd pat r
+  refine ⟨h1, h3, ?_⟩
+  intro p hp hmem
+  simp only [List.mem_filter, Bool.and_eq_true] at hmem
+  have := placed_not_free st p hp
+  rw [this] at hmem
+  exact absurd hmem.2.2 (by simp)
 
 end Slinky.C18
